@@ -1014,6 +1014,20 @@ class Interp:
                                 None if s.step is None else self.eval(s.step, fr))
         return self.eval(s, fr)
 
+    def ex_Yield(self, node, fr):
+        f = fr
+        while f is not None and '__out' not in f.locals:
+            f = f.parent
+        if f is None:
+            raise Unsupported('yield outside a generator frame')
+        v = None if node.value is None else self.eval(node.value, fr)
+        out = f.locals['__out']
+        if isinstance(out, list):
+            out.append(v)
+        else:
+            lib.call_method(self, out, 'append', [v], {})
+        return None
+
     def ex_Starred(self, node, fr):
         raise Unsupported('starred')
 
@@ -1184,9 +1198,11 @@ class Interp:
         self.bind_params(fi.node.args, args, kwargs, fr, Frame(None, fi.module, {}, cls=defcls, parent=closure))
         if self.depth == 0 and getattr(self, 'top_old', None) is not None:
             fr.locals['__old__'] = self.top_old       # old(...) is available in loop invariants of the verified function
-        if _is_generator(fi.node):
-            raise Unsupported(f'generator function {fi.qualname}')
-        if not self.noforking and _simple_pure(fi.node):
+        is_gen = _is_generator(fi.node)
+        if is_gen:
+            # generators are run eagerly: every `yield v` appends v to the ghost output list __out, which is returned
+            fr.locals['__out'] = []
+        if not self.noforking and not is_gen and _simple_pure(fi.node):
             # straight-line boolean/arithmetic helper: evaluate without forking (one merged term) when possible
             saved = (len(self.p.pc), self.p.idx, len(self.p.taken))
             fr2 = Frame(fi, fi.module, dict(fr.locals), cls=defcls, parent=closure)
@@ -1211,9 +1227,9 @@ class Interp:
         self.callstack.append(fi.ident)
         try:
             self.exec_block(fi.node.body, fr)
-            return None
+            return fr.locals['__out'] if is_gen else None
         except ReturnSig as r:
-            return r.value
+            return fr.locals['__out'] if is_gen else r.value
         finally:
             self.depth -= 1
             self.callstack.pop()
